@@ -44,14 +44,17 @@ class Conn:
         self.out.append({"t": "req", "method": method, "params": params})
 
 
-def settings(args=""):
-    a = cli("fortls").parse_args(("--disable_autoupdate --incremental_sync --nthreads 1 " + args).split())
+BASE_ARGS = "--disable_autoupdate --incremental_sync --nthreads 1 "
+
+
+def settings(args="", base=None):
+    a = cli("fortls").parse_args(((BASE_ARGS if base is None else base) + args).split())
     return vars(a)
 
 
-def mkserver(root, args="", init=True, init_params=None):
+def mkserver(root, args="", init=True, init_params=None, base=None):
     c = Conn()
-    s = LangServer(c, settings(args))
+    s = LangServer(c, settings(args, base))
     if init:
         p = {"rootPath": root}
         if init_params:
